@@ -17,8 +17,10 @@ REPO = os.environ.get("VERIF_REPO", "/repo")
 BUILD_ROOT = os.path.join(VERIF, ".build")
 SPEC_DIR = os.path.join(VERIF, "spec")
 HARNESS_DIR = os.path.join(VERIF, "harness")
-OUT_DIR = os.path.join(VERIF, "out")
-EVIDENCE_DIR = os.path.join(VERIF, "evidence")
+# a run against a scratch copy of the repository (VERIF_REPO) keeps its outputs away from the committed evidence
+_SCRATCH = os.environ.get("VERIF_OUT") or (None if REPO == "/repo" else os.path.join(VERIF, "out", "scratch_" + os.path.basename(REPO)))
+OUT_DIR = os.path.join(_SCRATCH, "out") if _SCRATCH else os.path.join(VERIF, "out")
+EVIDENCE_DIR = os.path.join(_SCRATCH, "evidence") if _SCRATCH else os.path.join(VERIF, "evidence")
 GUARD = "YACLIB_VERIF"
 NCPU = os.cpu_count() or 4
 
